@@ -123,7 +123,7 @@ def build():
                 inv.append((f'partial_{mf2}', f'{shape2}_unindexed(old(self).{mf2}, self.{mf2}, {tv2}@.take(vx_it.index@ as int), handle)'))
                 inv.append((f'complete_{mf2}', f'vx_it.index@ == {tv2}@.len() ==> {shape2}_unindexed(old(self).{mf2}, self.{mf2}, {tv2}@, handle)'))
                 inv.append((f'once_{mf2}', f'{shape2}_once(old(self).{mf2}, handle)'))
-        loops[k] = dict(invariant=inv)
+        loops[r'vx_it: ' + tv + r'\b'] = dict(invariant=inv)
         # R-forname: name the ghost iterator of `for X in VEC`
         rewrites.append(('R-forname', r'for ' + re.escape(lv) + r' in ' + tv + r' \{', f'for {lv} in vx_it: {tv} {{'))
         call = r're:self\.' + mf + r'\s*\.remove\([^;]*;'
